@@ -126,6 +126,14 @@ _BETWEEN = [0]
 def check(fs, pref):
     text = str(fs)
     p = Parser()
+    # the Parser that reads the saved script may have been used before — on a script it accepted, or on one it refused (a user
+    # correcting a script and loading it again): the set that is loaded is the one that was saved
+    if _BETWEEN[0] % 5 == 1:
+        p.parse(b"keep; stop \"x\";")
+    elif _BETWEEN[0] % 5 == 3:
+        p.parse(b'require "fileinto"; fileinto "elsewhere";')
+    elif _BETWEEN[0] % 5 == 4:
+        p.parse(b"# Filter: ghost\nif true { foo")
     if p.parse(text.encode("utf-8")) is not True:
         return "rendered set is rejected: %s" % p.error, text
     # other parsing may happen between parsing a saved script and loading it (several scripts parsed first, loaded later)
